@@ -9,6 +9,8 @@ from proto import fbits, unbits, run_driver
 KERNEL_FILES = ["krige/krigesum.pyx"]
 ASSUMPTIONS = ["scipy's inv/pinv/pinvh return a two-sided inverse of the assembled matrix (hypothesis of the theorems); rounding is not modelled",
                "covariance values are taken from the real model and handed to the Lean side bit-for-bit; the assembly, right-hand sides, chunk loop, kernel and clipping are compared for equality",
+               "lags are the Euclidean distances of the model's isometrised positions (C12/C13 cover isometrize); the plain covariance of a lag is model.covariance (C03); "
+               "which lags get the sill (exact mode) and where the error term goes is decided by the Lean model / the independent solve, not read from the object",
                "data preparation / post-processing: the Lean side evaluates the normaliser with the model of C18 (libm vs numpy: compared within 1e-12 relative); "
                "the order of the steps is additionally compared bit-for-bit with the real normaliser's values of the detrended data",
                "histories: a freshly constructed object is built from the model parameters read back through public attributes (C14 covers the setters); "
@@ -33,6 +35,23 @@ def model_inputs(kr):
     return C, err, F, E
 
 
+def err_spec(cfg, n):
+    """the error setting of the CONFIGURATION for the Lean model: (kind, values)"""
+    ce = cfg["cond_err"]
+    if isinstance(ce, str):
+        return "nugget", np.zeros(0)
+    if isinstance(ce, np.ndarray):
+        return "array", np.asarray(ce, dtype=float).reshape(n)
+    return "scalar", np.array([float(ce)])
+
+
+def lag_tag(lag):
+    """classes of conditioning-point-to-target lags present: zero / band (0 < r <= 1e-8) / near (<= 1e-5)"""
+    lag = np.asarray(lag)
+    c = [k for k, msk in (("zero", lag == 0), ("band", (lag > 0) & (lag <= kc.BAND)), ("near", (lag > kc.BAND) & (lag <= 1e-5))) if msk.any()]
+    return "tlag:" + ("+".join(c) if c else "far")
+
+
 def lam_eff(spec):
     """smallest |exponent| the normaliser divides by (1 for parameter-free maps / log branches)"""
     if spec is None or spec["kind"] == "LogNormal":
@@ -48,8 +67,9 @@ def close_libm(spec, a, b):
     a, b = np.asarray(a, dtype=float).ravel(), np.asarray(b, dtype=float).ravel()
     if a.shape != b.shape or not np.array_equal(np.isnan(a), np.isnan(b)):
         return False
-    ok = ~np.isnan(a)
-    return bool(np.all(np.abs(a[ok] - b[ok]) <= 1e-12 * (1 + np.abs(a[ok]) + np.abs(b[ok])) * (1 + 1 / lam_eff(spec))))
+    ok = ~np.isnan(a) & (a != b)        # identical values (also identical infinities of overflowing ill-conditioned systems) agree
+    with np.errstate(all="ignore"):
+        return bool(np.all(np.abs(a[ok] - b[ok]) <= 1e-12 * (1 + np.abs(a[ok]) + np.abs(b[ok])) * (1 + 1 / lam_eff(spec))))
 
 
 def correspondence(ctx, on_data=False):
@@ -74,6 +94,10 @@ def _correspondence(ctx, on_data=False):
                 cfg["ext"] = (cfg["ext"][0], cfg["ext"][0][:, sel].copy())
             else:
                 cfg["pos"] = np.hstack([cfg["cond_pos"][:, sel], cfg["pos"][:, :1]])
+            if rng.rand() < 0.25:     # ... some of them only NEARLY on the data (lags inside / outside the isclose band of lag 0)
+                for q in range(len(sel)):
+                    if rng.rand() < 0.5:
+                        cfg["pos"][:, q] += kc.near_offset(rng, cfg["fdim"], cfg["latlon"])
             cfg["chunk"] = None if rng.rand() < 0.5 else int(rng.randint(1, 4))
         cap, store = [], []
         try:
@@ -98,6 +122,16 @@ def _correspondence(ctx, on_data=False):
         # 1. matrix assembly
         ops.append(dict(op="krige_assemble", **L, C=fbits(C), err=fbits(err), F=fbits(F), E=fbits(E)))
         meta.append(("K", cap[-1], cfg, key))
+        # 1a. the matrix from the CONFIGURATION: lags of the isometrised conditioning points -> the model's PLAIN covariance
+        #     at every lag (also lag 0 between coincident points); error kind and values from the configuration, the nugget
+        #     from the model: the Lean model puts the error term on the diagonal only (assembleKCfg)
+        mdl = kr.model
+        ctag = kc.coin_tag(cfg, mdl)
+        dist[ctag] = dist.get(ctag, 0) + 1
+        ek, ev = err_spec(cfg, L["n"])
+        ops.append(dict(op="krige_assemble_cfg", **L, cv=fbits(mdl.covariance(kc.iso_dists(mdl, cfg["cond_pos"]))), errkind=ek,
+                        errv=fbits(ev), nugget=fbits([float(mdl.nugget)])[0], F=fbits(F), E=fbits(E)))
+        meta.append(("KCFG", cap[-1], cfg, cfg["variant"] + "|" + ctag + f"|pinv={cfg['pinv']}"))
         # 1b. post-processing of the raw field: trend + denormalize(mean + raw) on the model side (every call path)
         sc = kc.pos_scale(cfg)
         raw = np.ravel(out[0] if isinstance(out, tuple) else out)
@@ -135,6 +169,15 @@ def _correspondence(ctx, on_data=False):
         ops.append(dict(op="krige_rhs", **L, m=m, only_mean=only_mean, c=fbits(c), f=fbits(f), e=fbits(e)))
         rhs_real = np.hstack([s[2] for s in store]) if store else np.zeros((size, 0))
         meta.append(("RHS", rhs_real, cfg, key))
+        # 2a. right-hand sides from LAGS: the Lean model decides between the plain and the nugget-aware covariance (exact
+        #     flag of the configuration; sill inside the isclose band of lag 0) from the lags and the plain covariances
+        lag = cdist(kr._krige_pos.T, iso_pos.T)
+        ttag = lag_tag(lag)
+        dist[ttag + f"/exact={cfg['exact']}"] = dist.get(ttag + f"/exact={cfg['exact']}", 0) + 1
+        ops.append(dict(op="krige_rhs_lag", **L, m=m, only_mean=only_mean, exact=bool(cfg["exact"]),
+                        sill=fbits([float(mdl.var) + float(mdl.nugget)])[0], d=fbits(lag), cv=fbits(mdl.covariance(lag)),
+                        f=fbits(f), e=fbits(e)))
+        meta.append(("RHSLAG", rhs_real, cfg, f"exact={cfg['exact']}|{ttag}|nugget{'>0' if mdl.nugget > 0 else '=0'}"))
         # 3. data preparation from the RAW ingredients of the configuration (values, trend and mean evaluated by the
         #    harness at the conditioning points, normaliser kind + parameters): model of `_krige_cond` end to end
         trend_c = kc.eval_spec(cfg["trend"], cfg["cond_pos"], sc)
@@ -163,10 +206,10 @@ def _correspondence(ctx, on_data=False):
         if isinstance(r, dict) and "error" in r:
             dis.append({"what": "driver error " + r["error"], "kind": kind})
             continue
-        if kind == "K":
+        if kind in ("K", "KCFG"):
             lean = np.array([unbits(x) for x in r]).reshape(real.shape)
             ok = np.array_equal(lean, real)
-        elif kind == "RHS":
+        elif kind in ("RHS", "RHSLAG"):
             lean = np.array([unbits(x) for x in r]).reshape(real.shape) if real.size else real
             ok = np.array_equal(lean, real)
         elif kind == "PREP":
@@ -199,7 +242,11 @@ def _correspondence(ctx, on_data=False):
         if not ok:
             what = {"PREP": "kriging PREP: prepared conditions normalize(cond_val - trend) - mean differ from the model",
                     "POST": "kriging POST: post-processed field differs from trend + denormalize(mean + raw) of the model",
-                    "MEAN": "kriging MEAN: get_mean(post_process=False) differs from the model's cond . M . e_n (or the only_mean field is not get_mean)"}.get(
+                    "MEAN": "kriging MEAN: get_mean(post_process=False) differs from the model's cond . M . e_n (or the only_mean field is not get_mean)",
+                    "KCFG": "kriging K: assembled matrix differs from the model's matrix of the configuration (plain covariance of every lag, "
+                            "measurement error / nugget on the diagonal only)",
+                    "RHSLAG": "kriging RHS: right-hand sides differ from the model's (plain covariance; in exact mode the sill at lags inside "
+                              "the isclose band of 0)"}.get(
                         kind, f"kriging {kind}: model differs from implementation")
             dis.append({"what": what, "variant": cfg["variant"], "key": key,
                         "real": np.asarray(real[0] if kind == "CALL" else real, dtype=float).tolist() if kind != "CALL" else [np.asarray(x).tolist() for x in np.atleast_1d(real[0])],
@@ -231,7 +278,13 @@ def _correspondence(ctx, on_data=False):
                     "variant x exact flag x nugget > 0, a third lives in an affine coordinate frame, a quarter has targets on data; get_mean(post_process=False) "
                     "vs the model's cond.M.e_n (1e-12 of the sum of magnitudes; einsum order) and only_mean field == get_mean (exact); "
                     "generate_grid + C-order index decoding vs Model/Grid.lean (exact, gridtie); "
-                    "distinct = distinct (stage, variant/layout/options | normalizer/mean/trend kinds | history op pattern | target kind x mesh type x framed)",
+                    "every fourth case (and a sixth of the free ones) has 1-3 groups of coincident / nearly coincident conditioning points (lag 0, inside, "
+                    "outside the isclose band |r| <= 1e-8 of the isometrised lags) x nugget {0, > 0} x error kind {model nugget, scalar, per-point} x exact "
+                    "x pseudo_inv on/off, mostly with targets on / nearly on conditioning points: the captured matrix is additionally compared (bit-for-bit) "
+                    "with the model's matrix of the CONFIGURATION (assembleKCfg: plain covariance of every lag, error kind resolved by the model, error on the "
+                    "diagonal only) and the captured right-hand sides with the model's lag-based ones (assembleRHSLag: the model decides plain / nugget-aware "
+                    "covariance from the exact flag and the lags); "
+                    "distinct = distinct (stage, variant/layout/options | normalizer/mean/trend kinds | history op pattern | target kind x mesh type x framed | coincidence class x error kind x nugget x exact x pinv | target-lag class)",
             "samples": samples, "disagreements": dis[:8], "distribution": dist}
 
 
@@ -416,7 +469,7 @@ def _search(ctx, deep=False):
     rng = np.random.RandomState(ctx.seed + 55)
     N = ctx.scale(120, 800) * (3 if deep else 1)
     viol, ev = probe_d16(), 1
-    tags = {}
+    tags, ctags, rejected = {}, {}, {}
     for t in range(N):
         cfg = kc.gen_config(rng, strat=t)
         try:
@@ -425,16 +478,34 @@ def _search(ctx, deep=False):
                 kr = kc.build(cfg)
                 fld, var = kc.call(kr, cfg, post_process=False, store=False)
                 pfld, pvar = kc.call(kr, cfg, post_process=True, store=False)
-        except Exception:
+        except Exception as ex:
+            rejected[type(ex).__name__] = rejected.get(type(ex).__name__, 0) + 1
+            if isinstance(ex, np.linalg.LinAlgError):
+                # "singular matrix" is only acceptable when the system IS singular: the independently assembled matrix of a
+                # regular system (e.g. repeated stations WITH measurement errors / nugget) must be invertible by the code too
+                with warnings.catch_warnings():
+                    warnings.simplefilter("ignore")
+                    mdl = kc.make_model(np.random.RandomState(cfg["model_seed"]), cfg["dim"], cfg["latlon"], cfg["temporal"],
+                                        nugget=cfg.get("nugget"), unit=kc.unit_of(cfg))
+                    ref = kc.solve_direct(cfg, mdl, cfg["pos"])
+                ev += 1
+                if ref["cond"] <= 1e7:
+                    viol.append({"key": "krige:singular-but-regular:" + cfg["variant"], "what": "the kriging object fails with a singular-matrix "
+                                 "error although the kriging system of the configuration is regular (condition number "
+                                 f"{ref['cond']:.3g}; {kc.coin_tag(cfg, mdl)})", "case": kc.describe(cfg), "cond": ref["cond"]})
             continue
         ref_f, ref_v, cond = direct_solve(kr, cfg, cfg["pos"])
         if cond > 1e7:
+            ck = "discarded(cond>1e7):" + kc.coin_tag(cfg, kr.model).split("/err=")[0]
+            rejected[ck] = rejected.get(ck, 0) + 1
             continue
         tol = 1e-9 * max(cond, 1) * (1 + np.abs(ref_f).max())
         ev += 1
         cdesc = kc.describe(cfg)
         mtag = kc.mnt_tag(cfg)
         tags[mtag] = tags.get(mtag, 0) + 1
+        ctag = kc.coin_tag(cfg, kr.model) + f"/pinv={cfg['pinv']}"
+        ctags[ctag] = ctags.get(ctag, 0) + 1
         if not (np.allclose(fld, ref_f, atol=tol) and np.allclose(var, ref_v, atol=tol)):
             viol.append({"key": "krige:direct-solve:" + cfg["variant"] + (":latlon" if cfg["latlon"] else ""),
                          "what": "kriging field/variance differ from solving the kriging system directly "
@@ -529,11 +600,14 @@ def _search(ctx, deep=False):
     hv, hev, hsum = search_histories(ctx, rng, deep)
     viol += hv
     ev += hev
-    return {"evaluations": ev, "violations": viol[:8],
+    return {"evaluations": ev, "violations": viol[:8], "distribution": {"compared": ctags, "not_compared": rejected},
             "summary": "real Krige variants (+ generic class; identity and 6 non-identity normalizers x constant/callable mean x trend: "
                        f"{len(tags)} combinations) vs an independent numpy solve of the kriging system on independently prepared data, raw and "
                        "post-processed at every target; only_mean/get_mean; chunk size, target order, conditioning order, constants, mesh type; "
-                       + hsum}
+                       f"layouts with repeated / nearly repeated stations (lag 0, inside, outside the isclose band) x nugget x error kind x exact x "
+                       f"pseudo_inv: {sum(v for k, v in ctags.items() if not k.startswith('coin:distinct'))} of {sum(ctags.values())} compared "
+                       f"systems in {len([k for k in ctags if not k.startswith('coin:distinct')])} classes (regular systems only; a singular-matrix "
+                       "error on a regular system is a violation); " + hsum}
 
 
 def last_setup(log):
@@ -628,8 +702,12 @@ def search_histories(ctx, rng, deep=False, zero=False):
                     break
                 # C06: exact interpolation of the CURRENT data by the object with a history
                 if zero and e.get("sel") is not None and got_v is not None:
-                    want = cur["cond_val"][e["sel"]]
-                    dtol = data_tol(cur, ref["cond"], e["sel"])
+                    # (only where no OTHER conditioning point lies inside the isclose band of lag 0: repeated stations carry
+                    #  contradictory data and were compared with the direct solve above)
+                    lone = kc.coincidence(cur, mod)["isolated"][e["sel"]]
+                    want = cur["cond_val"][e["sel"]][lone]
+                    dtol = data_tol(cur, ref["cond"], e["sel"])[lone]
+                    got_f, got_v = got_f[lone], got_v[lone]
                     vexp = mod.nugget if zmode == "zero-err" else 0.0
                     ev += 1
                     if not (close_nan(got_f, want, dtol) and np.all(np.abs(got_v - vexp) <= 1e-7 * mod.sill * max(1.0, ref["cond"] / 1e3))):
